@@ -51,6 +51,8 @@ def run_k(ctx, kres):
     v += k_suite(ctx, kres, "K02-wrap-matrix(exhaustive)", [Trace("wrap-matrix", gen2.c02_wrap_matrix(ctx.seed))], in_projection, direct=ksuites.protection_direct)
     # what a key derived with the three concatenation mechanisms inherits: (SENSITIVE, EXTRACTABLE) of base and second key x template; flags and the value read back
     v += k_suite(ctx, kres, "K02-derive-matrix(exhaustive)", [Trace("derive-matrix", gen2.c02_derive_matrix(ctx.seed))], in_projection_derive, direct=ksuites.protection_direct)
+    # every role tries to take each one-way protection away (the SO can reach public objects): judged on the answers alone
+    v += k_suite(ctx, kres, "K02-protection-roles(exhaustive)", [Trace("protection-roles", gen2.c02_protection_roles(ctx.seed))], in_projection, direct=ksuites.protection_direct)
     return v
 
 
